@@ -34,11 +34,11 @@
 (* Configurations: MC_Glob_quick (2 patterns x 2 symbols, names <= 2, 6    *)
 (* symbols, 81 356 states), MC_Glob_bnd_a (1 x 3, names <= 4, 2 738 385),  *)
 (* MC_Glob_bnd_b (2 x 2, names <= 3, 3 160 170), MC_Glob_bnd_c (2 x 3,     *)
-(* names <= 3 over {a,*,?,\,LF}, 3 820 752), MC_Glob_doc_quick / _doc      *)
-(* (<= 3 paragraphs: LastWins; 52 703 / 1 630 k states), MC_Glob_emit and  *)
+(* names <= 3 over {a,*,?,\}, 621 350), MC_Glob_doc_quick / _doc           *)
+(* (<= 3 paragraphs: LastWins; 22 587 / 1 630 k states), MC_Glob_emit and  *)
 (* MC_Glob_doc_emit (emission).  Histories: GlobCache.tla (per-paragraph   *)
 (* regex cache, error path), GlobMemo.tla (direct globs_to_re calls within *)
-(* one process).                                                           *)
+(* one process), GlobFind.tla (lookups on one document edited in place).   *)
 (*                                                                         *)
 (* Spec-level negative controls (all tried, all make TLC report the stated *)
 (* violation; the harness re-runs them in every check):                    *)
